@@ -26,7 +26,13 @@
 (*         not predicted), placed after `pos` of the clips above (0 =      *)
 (*         first, Len(clips) = last).  They are not evaluated: the         *)
 (*         evaluated clips are those present in both inputs, i.e. `clips`. *)
-(*   style realisation variant for the binder (no meaning here)            *)
+(*   style how the binder spells the tags (no meaning for Req: an item's   *)
+(*         class is the index of the vocabulary tag its tag EQUALS, and    *)
+(*         only scores of tags equal to a vocabulary tag count):           *)
+(*         0 minimal; 1 extra out-of-vocabulary tags and explicit zero     *)
+(*         scores; 2 / 3 look-alike tags -- a different term sharing its   *)
+(*         label (2) or its name (3) and the value with a vocabulary tag   *)
+(*         -- as a true tag and as a predicted tag with a score            *)
 (* Rationals are <<p, q>>, q > 0; every denominator stays below 32768.     *)
 (***************************************************************************)
 EXTENDS Lattice
